@@ -69,10 +69,18 @@ type c17Mut struct {
 }
 
 type c17Dl struct {
-	Kind    string `json:"kind"` // download locate-local locate-remote pull
+	Kind string `json:"kind"` // download locate-local locate-remote pull manager cmd-*
+	// the VerificationStrategy (iota order) for download / manager; for the flag-driven kinds
+	// 0 = no flag, 2 = --verify, 3 = --prov (pull only), 5 = --verify --prov (pull only)
 	Strat   int    `json:"strat"`
-	Variant string `json:"variant"` // good tampered noprov untrusted nochart
+	Variant string `json:"variant"` // good tampered tampered-prov wrong-name noprov untrusted nochart nokeyring
 }
+
+// the --verify flag (or VerifyAlways) is part of the run: verification is required
+func (d c17Dl) required() bool { return d.Strat == 2 || d.Strat == 5 }
+
+// the --prov flag of `helm pull` is part of the run
+func (d c17Dl) later() bool { return d.Strat == 3 || d.Strat == 5 }
 
 type c17Case struct {
 	Name        string `json:"name"` // base name of the archive
@@ -90,6 +98,11 @@ type c17Case struct {
 	Customs map[string][]byte `json:"customs"`
 	Muts    []c17Mut          `json:"muts"`
 	Dls     []c17Dl           `json:"dls"`
+	// the two (unencrypted, generated) secret keys: A signed Prov, B signed AltProv / EvilProv;
+	// Signatories with a signing Entity are rebuilt from them (c17_trust.go)
+	SecA []byte   `json:"sec_a"`
+	SecB []byte   `json:"sec_b"`
+	Sigs []c17Sig `json:"sigs"`
 }
 
 type c17Tab struct {
@@ -128,8 +141,9 @@ type c17DlRes struct {
 }
 
 type c17Obs struct {
-	Res []c17Res   `json:"res"`
-	Dls []c17DlRes `json:"dls"`
+	Res  []c17Res    `json:"res"`
+	Dls  []c17DlRes  `json:"dls"`
+	Sigs []c17SigRes `json:"sigs"`
 	// hypotheses of C17_sign_then_verify on the genuine pair: the Plaintext clearsign returns
 	// is byte for byte yaml(metadata) "\n...\n" yaml(sums) rebuilt here from the archive
 	BlockNote string `json:"block_note,omitempty"`
@@ -200,6 +214,7 @@ type c17Keys struct {
 	signer, other          *openpgp.Entity
 	signerPub, otherPub    []byte
 	signerSecret, otherSec string // secret keyring files
+	signerSecB, otherSecB  []byte // their content
 }
 
 var (
@@ -207,7 +222,7 @@ var (
 	c17K        *c17Keys
 )
 
-func c17NewKey(name string, dir string) (*openpgp.Entity, []byte, string) {
+func c17NewKey(name string, dir string) (*openpgp.Entity, []byte, string, []byte) {
 	e, err := openpgp.NewEntity(name, "", strings.ToLower(strings.ReplaceAll(name, " ", "."))+"@example.test", &packet.Config{RSABits: 1024})
 	if err != nil {
 		panic(err)
@@ -228,7 +243,7 @@ func c17NewKey(name string, dir string) (*openpgp.Entity, []byte, string) {
 	if err := os.WriteFile(f, sec.Bytes(), 0o600); err != nil {
 		panic(err)
 	}
-	return el[0], pub.Bytes(), f
+	return el[0], pub.Bytes(), f, sec.Bytes()
 }
 
 func c17GetKeys() *c17Keys {
@@ -243,8 +258,8 @@ func c17GetKeys() *c17Keys {
 			os.MkdirAll(d, 0o755)
 			os.Setenv(e, d)
 		}
-		k.signer, k.signerPub, k.signerSecret = c17NewKey("Trusted Signer", dir)
-		k.other, k.otherPub, k.otherSec = c17NewKey("Other Key", dir)
+		k.signer, k.signerPub, k.signerSecret, k.signerSecB = c17NewKey("Trusted Signer", dir)
+		k.other, k.otherPub, k.otherSec, k.otherSecB = c17NewKey("Other Key", dir)
 		c17K = k
 	})
 	return c17K
@@ -336,7 +351,7 @@ func c17Build(r *rand.Rand, exhaustive, withCmd bool) c17Case {
 	if err != nil {
 		panic(fmt.Sprint("package --sign: ", err))
 	}
-	c := c17Case{Name: filepath.Base(path), RingSigner: k.signerPub, RingOther: k.otherPub}
+	c := c17Case{Name: filepath.Base(path), RingSigner: k.signerPub, RingOther: k.otherPub, SecA: k.signerSecB, SecB: k.otherSecB, Sigs: c17SigMatrix()}
 	c.Archive, _ = os.ReadFile(path)
 	c.Prov, _ = os.ReadFile(path + ".prov")
 	// the same archive signed by the other key
@@ -518,23 +533,27 @@ func c17Build(r *rand.Rand, exhaustive, withCmd bool) c17Case {
 	add(c17Mut{T: "name", Op: "subdir", S: "sub/dir", KR: "signer", Expect: "accept"})
 	add(c17Mut{T: "name", Op: "subdir", S: "x-" + c.Name, KR: "signer", Expect: "accept"}) // a DIRECTORY named like another file
 	// strategy checks
+	// every strategy / every combination of the verification flags of each entry point against
+	// a genuine pair, a tampered archive, a tampered provenance file, the pair served under
+	// another name, an untrusted signer, a missing provenance file, an unloadable keyring
+	// (the same list for every case: nothing here depends on the random source)
 	for st := 0; st < 4; st++ {
-		for _, v := range []string{"good", "tampered", "noprov", "untrusted", "nochart", "nokeyring"} {
+		for _, v := range []string{"good", "tampered", "tampered-prov", "wrong-name", "noprov", "untrusted", "nochart", "nokeyring"} {
 			c.Dls = append(c.Dls, c17Dl{Kind: "download", Strat: st, Variant: v})
 		}
 	}
-	for _, v := range []string{"good", "tampered", "noprov", "untrusted", "nokeyring"} {
+	for _, v := range []string{"good", "tampered", "tampered-prov", "wrong-name", "noprov", "untrusted", "nokeyring"} {
 		for st := 0; st < 2; st++ {
 			c.Dls = append(c.Dls, c17Dl{Kind: "locate-local", Strat: st * 2, Variant: v})
 			c.Dls = append(c.Dls, c17Dl{Kind: "locate-remote", Strat: st * 2, Variant: v})
 		}
-		for _, st := range []int{0, 2, 3} {
+		for _, st := range []int{0, 2, 3, 5} { // Pull{Verify, VerifyLater}: all four combinations
 			c.Dls = append(c.Dls, c17Dl{Kind: "pull", Strat: st, Variant: v})
 		}
 	}
 	// the same strategies through the dependency manager and the command line
 	if !strings.Contains(ch.Metadata.Version, "+") {
-		for _, v := range []string{"good", "tampered", "noprov", "untrusted", "nochart"} {
+		for _, v := range []string{"good", "tampered", "tampered-prov", "wrong-name", "noprov", "untrusted", "nochart"} {
 			for st := 0; st < 4; st++ {
 				c.Dls = append(c.Dls, c17Dl{Kind: "manager", Strat: st, Variant: v})
 			}
@@ -550,7 +569,7 @@ func c17Build(r *rand.Rand, exhaustive, withCmd bool) c17Case {
 	}
 	if withCmd {
 		for _, v := range []string{"good", "tampered", "noprov", "untrusted"} {
-			for _, st := range []int{0, 2, 3} {
+			for _, st := range []int{0, 2, 3, 5} { // helm pull [--verify] [--prov]
 				c.Dls = append(c.Dls, c17Dl{Kind: "cmd-pull", Strat: st, Variant: v})
 			}
 			c.Dls = append(c.Dls, c17Dl{Kind: "cmd-template", Strat: 2, Variant: v})
@@ -856,6 +875,7 @@ func (p *c17) Execute(ci any) any {
 	for i, d := range c.Dls {
 		obs.Dls = append(obs.Dls, c17RunDl(&c, d, filepath.Join(work, fmt.Sprintf("d%d", i)), rings))
 	}
+	obs.Sigs = c17RunSigs(&c, work)
 	obs.BlockNote = c17CheckBlock(&c)
 	c17Count("mutant_verifications (Signatory.Verify + VerifyChart each)", len(obs.Res))
 	c17Count("strategy_runs (DownloadTo / LocateChart / Pull)", len(obs.Dls))
@@ -871,11 +891,16 @@ func c17RunDl(c *c17Case, d c17Dl, dir string, rings map[string]string) (res c17
 	os.MkdirAll(dir, 0o755)
 	defer os.RemoveAll(dir)
 	archive, prov, kr := c.Archive, c.Prov, "signer"
+	name := c.Name // the file name the pair is served / stored under
 	res.ChartOK, res.ProvOK = true, true
 	switch d.Variant {
 	case "tampered":
 		archive = append([]byte(nil), c.Archive...)
 		archive[len(archive)/2] ^= 0x10
+	case "tampered-prov": // one digit of the signed digest changed: the signature no longer checks
+		_, prov, _ = c17Apply(c, c17Mut{T: "prov", Op: "hash-edit", Pos: 3})
+	case "wrong-name": // the genuine pair under a name the provenance file does not list
+		name = "x-" + c.Name
 	case "noprov":
 		res.ProvOK = false
 	case "untrusted":
@@ -886,7 +911,7 @@ func c17RunDl(c *c17Case, d c17Dl, dir string, rings map[string]string) (res c17
 		kr = "garbage"
 	}
 	h := sha256.Sum256(archive)
-	res.Chk.Name, res.Chk.Sha = c.Name, hex.EncodeToString(h[:])
+	res.Chk.Name, res.Chk.Sha = name, hex.EncodeToString(h[:])
 	res.Chk.Tab, res.Chk.SigOK, res.Chk.KrLoads = c17Tables(prov, c17Ring(c, kr))
 	defer func() {
 		if x := recover(); x != nil {
@@ -897,10 +922,10 @@ func c17RunDl(c *c17Case, d c17Dl, dir string, rings map[string]string) (res c17
 	srv := c17Server()
 	files := map[string][]byte{}
 	if res.ChartOK {
-		files["charts.test/pkg/"+c.Name] = archive
+		files["charts.test/pkg/"+name] = archive
 	}
 	if res.ProvOK {
-		files["charts.test/pkg/"+c.Name+".prov"] = prov
+		files["charts.test/pkg/"+name+".prov"] = prov
 	}
 	srv.mu.Lock()
 	srv.files = files
@@ -914,38 +939,39 @@ func c17RunDl(c *c17Case, d c17Dl, dir string, rings map[string]string) (res c17
 	case "download":
 		dl := downloader.ChartDownloader{Out: io.Discard, Verify: downloader.VerificationStrategy(d.Strat), Keyring: rings[kr],
 			Getters: getter.All(settings), RepositoryConfig: settings.RepositoryConfig, RepositoryCache: settings.RepositoryCache}
-		_, ver, err := dl.DownloadTo(base+c.Name, "", dest)
+		_, ver, err := dl.DownloadTo(base+name, "", dest)
 		res.Err = err != nil
 		if err == nil && ver != nil && ver.FileHash != "" {
 			res.HasHash, res.Hash = true, ver.FileHash
 		}
 	case "locate-local":
-		path := filepath.Join(dest, c.Name)
+		path := filepath.Join(dest, name)
 		os.WriteFile(path, archive, 0o644)
 		if res.ProvOK {
 			os.WriteFile(path+".prov", prov, 0o644)
 		}
-		cpo := action.ChartPathOptions{Verify: d.Strat == 2, Keyring: rings[kr]}
+		cpo := action.ChartPathOptions{Verify: d.required(), Keyring: rings[kr]}
 		_, err := cpo.LocateChart(path, settings)
 		res.Err = err != nil
 	case "cmd-pull":
-		args := []string{"pull", base + c.Name, "-d", dest, "--keyring", rings[kr], "--repository-config", settings.RepositoryConfig, "--repository-cache", settings.RepositoryCache}
-		if d.Strat == 2 {
+		args := []string{"pull", base + name, "-d", dest, "--keyring", rings[kr], "--repository-config", settings.RepositoryConfig, "--repository-cache", settings.RepositoryCache}
+		if d.required() {
 			args = append(args, "--verify")
-		} else if d.Strat == 3 {
+		}
+		if d.later() {
 			args = append(args, "--prov")
 		}
 		_, err := helmcmd.VerifRunCmd(args, c17Cfg())
 		res.Err = err != nil
 	case "cmd-template":
-		args := []string{"template", "rel", base + c.Name, "--keyring", rings[kr], "--repository-config", settings.RepositoryConfig, "--repository-cache", settings.RepositoryCache}
-		if d.Strat == 2 {
+		args := []string{"template", "rel", base + name, "--keyring", rings[kr], "--repository-config", settings.RepositoryConfig, "--repository-cache", settings.RepositoryCache}
+		if d.required() {
 			args = append(args, "--verify")
 		}
 		_, err := helmcmd.VerifRunCmd(args, c17Cfg())
 		res.Err = err != nil
 	case "cmd-verify":
-		path := filepath.Join(dest, c.Name)
+		path := filepath.Join(dest, name)
 		os.WriteFile(path, archive, 0o644)
 		if res.ProvOK {
 			os.WriteFile(path+".prov", prov, 0o644)
@@ -959,7 +985,7 @@ func c17RunDl(c *c17Case, d c17Dl, dir string, rings map[string]string) (res c17
 			return res
 		}
 		idx, _ := yaml.Marshal(map[string]any{"apiVersion": "v1", "entries": map[string]any{ch.Metadata.Name: []map[string]any{
-			{"apiVersion": "v2", "name": ch.Metadata.Name, "version": ch.Metadata.Version, "urls": []string{c.Name}}}}})
+			{"apiVersion": "v2", "name": ch.Metadata.Name, "version": ch.Metadata.Version, "urls": []string{name}}}}})
 		srv.mu.Lock()
 		srv.files["charts.test/pkg/index.yaml"] = idx
 		srv.mu.Unlock()
@@ -980,7 +1006,7 @@ func c17RunDl(c *c17Case, d c17Dl, dir string, rings map[string]string) (res c17
 			res.Err = m.Update() != nil
 		case "cmd-dep-update":
 			args := append([]string{"dependency", "update", parent}, repoFlags...)
-			if d.Strat == 2 {
+			if d.required() {
 				args = append(args, "--verify")
 			}
 			_, err := helmcmd.VerifRunCmd(args, c17Cfg())
@@ -988,7 +1014,7 @@ func c17RunDl(c *c17Case, d c17Dl, dir string, rings map[string]string) (res c17
 		case "cmd-dep-build":
 			// a lock file first (genuine archive, no verification), then the build under test
 			srv.mu.Lock()
-			srv.files["charts.test/pkg/"+c.Name] = c.Archive
+			srv.files["charts.test/pkg/"+name] = c.Archive
 			srv.mu.Unlock()
 			m := &downloader.Manager{Out: io.Discard, ChartPath: parent, SkipUpdate: true, Getters: getter.All(settings),
 				RepositoryConfig: settings.RepositoryConfig, RepositoryCache: settings.RepositoryCache}
@@ -998,13 +1024,13 @@ func c17RunDl(c *c17Case, d c17Dl, dir string, rings map[string]string) (res c17
 			}
 			os.RemoveAll(filepath.Join(parent, "charts"))
 			srv.mu.Lock()
-			delete(srv.files, "charts.test/pkg/"+c.Name)
+			delete(srv.files, "charts.test/pkg/"+name)
 			if res.ChartOK {
-				srv.files["charts.test/pkg/"+c.Name] = archive
+				srv.files["charts.test/pkg/"+name] = archive
 			}
 			srv.mu.Unlock()
 			args := append([]string{"dependency", "build", parent}, repoFlags...)
-			if d.Strat == 2 {
+			if d.required() {
 				args = append(args, "--verify")
 			}
 			_, err := helmcmd.VerifRunCmd(args, c17Cfg())
@@ -1012,14 +1038,14 @@ func c17RunDl(c *c17Case, d c17Dl, dir string, rings map[string]string) (res c17
 		}
 	case "locate-remote", "pull":
 		if d.Kind == "locate-remote" {
-			cpo := action.ChartPathOptions{Verify: d.Strat == 2, Keyring: rings[kr]}
-			_, err := cpo.LocateChart(base+c.Name, settings)
+			cpo := action.ChartPathOptions{Verify: d.required(), Keyring: rings[kr]}
+			_, err := cpo.LocateChart(base+name, settings)
 			res.Err = err != nil
 		} else {
 			pl := action.NewPull(action.WithConfig(&action.Configuration{}))
 			pl.Settings, pl.DestDir, pl.Keyring = settings, dest, rings[kr]
-			pl.Verify, pl.VerifyLater = d.Strat == 2, d.Strat == 3
-			_, err := pl.Run(base + c.Name)
+			pl.Verify, pl.VerifyLater = d.required(), d.later()
+			_, err := pl.Run(base + name)
 			res.Err = err != nil
 		}
 	}
@@ -1097,8 +1123,9 @@ func (*c17) Oracle(ci, oi any) []hx.Violation {
 		}
 		verifies, _ := c17Expected(&r.Chk.Tab, r.Chk.SigOK, r.Chk.Name, r.Chk.Sha)
 		verifies = verifies && r.Chk.KrLoads && r.ProvOK
-		required := d.Strat == 2
-		if required && r.ChartOK && !verifies && !r.Err {
+		// verification required (VerifyAlways / --verify, whatever else is set): success means
+		// the artefact is genuine and signed by a key of the keyring
+		if d.required() && r.ChartOK && !verifies && !r.Err {
 			flag("required-verification-failed-open-"+d.Kind, desc+": verification was required and fails, but no error was returned")
 		}
 		if d.Variant == "good" && r.Err {
@@ -1111,6 +1138,7 @@ func (*c17) Oracle(ci, oi any) []hx.Violation {
 			flag("verification-reported-without-verifying", desc+": a Verification with a FileHash was returned although nothing verifies")
 		}
 	}
+	c17SigOracle(&c, obs.Sigs, flag)
 	return vs
 }
 
@@ -1225,22 +1253,38 @@ func (*c17) CoqCase(ci, oi any) string {
 		case "download":
 			kind = fmt.Sprintf("(DDownload %d)", d.Strat)
 		case "locate-local":
-			kind = "(DLocateLocal " + hx.CoqBool(d.Strat == 2) + ")"
+			kind = "(DLocateLocal " + hx.CoqBool(d.required()) + ")"
 		case "locate-remote", "cmd-template":
-			kind = "(DLocateRemote " + hx.CoqBool(d.Strat == 2) + ")"
+			kind = "(DLocateRemote " + hx.CoqBool(d.required()) + ")"
 		case "cmd-verify":
 			kind = "(DLocateLocal true)"
 		case "manager":
 			kind = fmt.Sprintf("(DManager %d)", d.Strat)
 		case "cmd-dep-update":
-			kind = "(DDepUpdate " + hx.CoqBool(d.Strat == 2) + ")"
+			kind = "(DDepUpdate " + hx.CoqBool(d.required()) + ")"
 		case "cmd-dep-build":
-			kind = "(DDepBuild " + hx.CoqBool(d.Strat == 2) + ")"
+			kind = "(DDepBuild " + hx.CoqBool(d.required()) + ")"
 		default:
-			kind = fmt.Sprintf("(DPull %s %s)", hx.CoqBool(d.Strat == 2), hx.CoqBool(d.Strat == 3))
+			kind = fmt.Sprintf("(DPull %s %s)", hx.CoqBool(d.required()), hx.CoqBool(d.later()))
 		}
-		dls = append(dls, fmt.Sprintf("mkDl %s %s %s %s %s %s", kind, hx.CoqBool(r.ChartOK), hx.CoqBool(r.ProvOK), c17CoqCheck(tk, &r.Chk),
-			hx.CoqBool(r.Err), hx.CoqOpt(c17Str(tk.val(r.Hash)), r.HasHash)))
+		tab := "None" // library results of the provenance file served: those of the case's
+		if !c17SameTab(&r.Chk.Tab, base) {
+			tab = "Some " + c17CoqTab(tk, &r.Chk.Tab, !r.Chk.SigOK)
+		}
+		dls = append(dls, hx.CoqPair(tab, fmt.Sprintf("mkDl %s %s %s %s %s %s", kind, hx.CoqBool(r.ChartOK), hx.CoqBool(r.ProvOK), c17CoqCheck(tk, &r.Chk),
+			hx.CoqBool(r.Err), hx.CoqOpt(c17Str(tk.val(r.Hash)), r.HasHash))))
+	}
+	var sigs []string
+	for i, g := range c.Sigs {
+		if i >= len(obs.Sigs) {
+			break
+		}
+		r := &obs.Sigs[i]
+		tab := "None"
+		if !c17SameTab(&r.Res.Tab, base) {
+			tab = "Some " + c17CoqTab(tk, &r.Res.Tab, !r.Res.SigOK)
+		}
+		sigs = append(sigs, hx.CoqPair(tab, c17CoqSig(tk, g, r)))
 	}
 	// the blocks the real signing produced, per file name the archive was signed under
 	var signs []string
@@ -1270,7 +1314,7 @@ func (*c17) CoqCase(ci, oi any) string {
 		}
 		signs = append(signs, fmt.Sprintf("mkSign %s %s %s", c17Str(nm), c17Str(tk.hex(sha)), sums))
 	}
-	return fmt.Sprintf("mkCase %s %s %s %s %s", c17CoqTab(tk, base, false), hx.CoqList(checks), hx.CoqList(provs), hx.CoqList(dls), hx.CoqList(signs))
+	return fmt.Sprintf("mkCase %s %s %s %s %s %s", c17CoqTab(tk, base, false), hx.CoqList(checks), hx.CoqList(provs), hx.CoqList(dls), hx.CoqList(signs), hx.CoqList(sigs))
 }
 
 func (*c17) Class(ci, oi any) string {
